@@ -17,7 +17,9 @@ from collections import Counter
 from .kernel import HarnessError, silence_logging
 
 VERIF = os.path.dirname(os.path.dirname(os.path.abspath(__file__)))
-_OUT = os.environ.get("VERIF_OUT_DIR") or VERIF  # scratch runs (mutants, self-tests) write elsewhere
+# scratch runs (mutants, self-tests, anything not against /repo itself) never write into /verif/evidence
+_OUT = os.environ.get("VERIF_OUT_DIR") or (
+    VERIF if os.path.abspath(os.environ.get("FLODYM_REPO", "/repo")) == "/repo" else os.path.join("/tmp", "verif_scratch_out"))
 REPLAY_DIR = os.path.join(_OUT, "replays")
 EVIDENCE_DIR = os.path.join(_OUT, "evidence")
 FINDINGS_FILE = os.path.join(VERIF, "known_findings.json")
